@@ -1,28 +1,38 @@
 /-
   C01 — Expressions evaluate exactly as the Soy language defines.
 
-  `eval_refines_spec_partial`: on the SCALAR OPERATOR FRAGMENT the interpreter model (Model/Eval.lean
-  `evalE`, which is tied to soyhtml/exec.go by the C01eval correspondence) refines the denotational
-  semantics of Appendix A (Spec/Eval.lean `eval`): wherever the specification gives a value the model
-  gives the same value (identities dropped, int64 read as an integer), and wherever the specification
-  gives an error the model gives an error.  Where the specification is open (`unspec`: int overflow,
-  division by zero, float print form outside the pinned window, undefined operands of `==`, …) nothing
-  is claimed.
+  `eval_refines_spec_partial` / `eval_refines_spec_ordering`: on the fragment below the interpreter model
+  (Model/Eval.lean `evalE`, which is tied to soyhtml/exec.go by the C01eval correspondence) refines the
+  denotational semantics of Appendix A (Spec/Eval.lean `eval`): wherever the specification gives a value the
+  model gives the same value (`absV`: identities of lists / maps dropped, int64 read as an integer, nested
+  values related member by member), and wherever the specification gives an error the model gives an error.
+  Where the specification is open (`unspec`: int overflow, division by zero, float print form outside the
+  pinned window, `==` with an undefined operand or on two collections — identity —, a negative list index,
+  an empty or non-string key on a map, printing a map with two or more entries, …) nothing is claimed.
 
-  The fragment (`frag`): null / boolean / integer (within int64) / float / string literals, globals,
-  plain variable references, `not`, unary minus, `and`, `or`, `?:`, the ternary, `==`, `!=`,
-  `+` (integer, float and string concatenation), `-`, `*`, `/`, `%`, nested arbitrarily — over
-  environments that bind scalars (undefined, null, booleans, ints, floats, strings).
+  The fragment (`frag` / `fragO true`), nested arbitrarily, over environments binding ANY values (scalars,
+  lists, maps, nested):
+    * null / boolean / integer (within int64) / float / string literals, globals;
+    * variable references WITH ACCESS CHAINS: `$x`, `.k`, `.N`, `[e]` and the null-safe `?.k`, `?[e]`, on maps
+      and lists — including the error cases (an access on null / undefined / a scalar, a key on a list, a
+      non-integer index) and the values (`undefined` for an absent key or an index past the end, `null`
+      for a null-safe LAST access on null / undefined);
+    * list literals and map literals (pairwise different keys) as VALUES;
+    * `not`, unary minus, `and`, `or`, `?:`, the ternary, `==`, `!=`, `+` (integer, float, string
+      concatenation — of any printable values, lists included), `-`, `*`, `/`, `%`; `< > <= >=` in
+      `eval_refines_spec_ordering` (`ordExact` is a theorem);
+    * the builtins isNonnull, length, strContains, hasData, range, min, max (`Lemmas/FuncRefine.lean`).
 
-  Missing for the full `eval_refines_spec` (kept out so that the theorem is true and proved):
-    * `< > <= >=` are covered by `eval_refines_spec_with_ordering` under the explicit hypothesis
-      `OrdExact` ("int → float is order-exact below 2^53" for the soft-float — now the THEOREM `ordExact`,
-      see `eval_refines_spec_ordering`; formerly only validated by the C20
-      correspondence, not proved); `eval_refines_spec_partial` needs no hypothesis and excludes them;
-    * collections: data-reference accesses, list / map literals, functions — and printing a map, where
-      the real code (and hence the model) DEVIATES from Appendix A (items sorted as `k: v` strings
-      instead of by key; an undefined member printed as "undefined"; `$l[-1]` an error) — see the
-      C01eval oracle's findings.  The refinement is false there, so no theorem can state it.
+  Still outside — why the theorems keep `_partial`:
+    * `$ij` and variables named like loop helpers (`x__index`, `x__lastIndex`);
+    * the loop functions index / isFirst / isLast (they read the loop frames; the specification would have to
+      guard loop lengths beyond int64, and binders named like helpers would have to be excluded);
+    * keys and augmentMap: the interpreter's entry ORDER differs from the specification's (insertion order
+      against sorted / right-first), and the value relation here is entry-by-entry;
+    * round / floor / ceiling: they need exactness lemmas about the soft-float (decode ∘ round-to-nearest on
+      integers below 2^53, exact products by powers of ten) that are not proved; randomInt (a PRNG);
+    * a map literal that repeats a key.
+  These stay decided by the exhaustive C01eval matrix against Spec.eval.
 -/
 import SoyVerif.Lemmas.EvalRefine
 import SoyVerif.Lemmas.FuncRefine
@@ -880,5 +890,10 @@ example : ∃ mv n', evalE m1 fn1 7 = .ok mv n' ∧ absV mv = .int 12 :=
   (eval_refines_spec_partial rel1 fn1 (by decide) 7).1 _ (by rfl)
 example : ∃ mv n', evalE m1 fn2 7 = .ok mv n' ∧ absV mv = .list [.int 0, .int 1] :=
   (eval_refines_spec_partial rel1 fn2 (by decide) 7).1 _ (by rfl)
+
+/-! `min(length($x.a), 7) + max(1.5, 2)` = 2 + 2.0 -/
+def fn3 : Expr := .func 0 fMin (.cons (.func 0 fLength (.cons (.dataRef 0 [120] (.cons (.key 0 false [97]) .nil)) .nil)) (.cons (.int 0 7) .nil))
+example : ∃ mv n', evalE m1 fn3 7 = .ok mv n' ∧ absV mv = .int 2 :=
+  (eval_refines_spec_partial rel1 fn3 (by decide) 7).1 _ (by rfl)
 
 end SoyVerif.Props.C01
